@@ -1,3 +1,4 @@
+import Heph.Generated.Regex
 import Heph.Proofs.DiagAnalyze
 import Heph.Proofs.DiagGroovy
 import Heph.Proofs.DiagScala
@@ -12,6 +13,53 @@ and of the crash marker). `analyze` is the model of `analyze_compiler_output`
 (for javac also on real javac output). -/
 namespace Heph.Props.C14
 open Heph.Diag
+
+-- BEGIN regenerated-pattern obligations
+/-! The scanners of `Heph/Model/Diag.lean` are hand-written for exactly these pattern strings and
+flags (`re.compile(...).pattern` / `.flags`; 32 = `re.UNICODE`, 40 = `re.UNICODE | re.MULTILINE`;
+`re.MULTILINE` only changes `^`/`$`, which no pattern uses) and for this `\d` table.
+`harness/regen.py` rewrites `Heph/Generated/Regex.lean` from the live classes on every run: an
+edited regex breaks exactly the obligation named after it, and the check goes on to its
+failing-input search. -/
+
+theorem javaErrorPattern_expected : Heph.Generated.javaErrorRegex
+    = "([a-zA-Z0-9\\/_]+.java):(\\d+:[ ]+error:[ ]+.*)(.*?(?=\\n{1,}))" := by decide
+theorem javaErrorFlags_expected : Heph.Generated.javaErrorFlags = 32 := by decide
+
+theorem javaCrashPattern_expected : Heph.Generated.javaCrashRegex
+    = "(java\\.lang.*)\\n(.*)" := by decide
+theorem javaCrashFlags_expected : Heph.Generated.javaCrashFlags = 32 := by decide
+
+theorem kotlinErrorPattern_expected : Heph.Generated.kotlinErrorRegex
+    = "([a-zA-Z0-9\\/_]+.kt):\\d+:\\d+:[ ]+error:[ ]+(.*)" := by decide
+theorem kotlinErrorFlags_expected : Heph.Generated.kotlinErrorFlags = 32 := by decide
+
+theorem kotlinCrashPattern_expected : Heph.Generated.kotlinCrashRegex
+    = "(org\\.jetbrains\\..*)\\n(.*)" := by decide
+theorem kotlinCrashFlags_expected : Heph.Generated.kotlinCrashFlags = 40 := by decide
+
+theorem groovyErrorPattern_expected : Heph.Generated.groovyErrorRegex
+    = "([a-zA-Z0-9\\\\/_]+.groovy):([\\s\\S]*?(?=\\n{2,}))" := by decide
+theorem groovyErrorFlags_expected : Heph.Generated.groovyErrorFlags = 32 := by decide
+
+theorem groovyCrashPattern_expected : Heph.Generated.groovyCrashRegex
+    = "(at org.codehaus.groovy)(.*)" := by decide
+theorem groovyCrashFlags_expected : Heph.Generated.groovyCrashFlags = 32 := by decide
+
+theorem groovyStackOverflowPattern_expected : Heph.Generated.groovyStackOverflowRegex
+    = "(.*java.lang.StackOverflowError)(.*)" := by decide
+theorem groovyStackOverflowFlags_expected : Heph.Generated.groovyStackOverflowFlags = 32 := by decide
+
+theorem scalaErrorPattern_expected : Heph.Generated.scalaErrorRegex
+    = "-- .*Error: (.*\\.scala):\\d+:\\d+ -+\\n((?:[^-]+))" := by decide
+theorem scalaErrorFlags_expected : Heph.Generated.scalaErrorFlags = 40 := by decide
+
+theorem scalaCrashPattern_expected : Heph.Generated.scalaCrashRegex
+    = ".*at dotty(.*)" := by decide
+theorem scalaCrashFlags_expected : Heph.Generated.scalaCrashFlags = 32 := by decide
+
+theorem digitTable_expected : Heph.Generated.digitRanges = Heph.Diag.digitRanges := by decide
+-- END regenerated-pattern obligations
 
 -- BEGIN theorems
 
